@@ -98,6 +98,20 @@ CLAIMED.update({
             "uninterpreted (A3); the unit clause of the statement is C06's.", "DESIGN.md section 4 C17"),
 })
 
+CLAIMED.update({
+    "C05": ("proof", TECH,
+            "Reservoir.Calculate: for 1..4 gradient segments (enumerated) and symbolic gradients, thicknesses, depth, "
+            "Tmax, Tsurf, the bottom-hole temperature equals a declarative 'surface temperature + integral of segment "
+            "gradients' spec at the final depth, the depth is only ever reduced, the temperature never exceeds Tmax, and "
+            "the depth is reduced only as needed (T = Tmax exactly when reduced; unchanged when already cool enough). "
+            "TDPReservoir.Calculate (through the parent's contract): history starts at BHT, never exceeds it and never "
+            "rises (for BHT >= injection temperature). Ground obligation: the default depth reaches Calculate in metres "
+            "(defect found and fixed, see known_findings.json).",
+            TRUSTED + "Single-fracture history, the drawdown-limit / redrilling tiling clause in WellBores.Calculate and "
+            "models 1-2 (start-at-BHT) are not yet under contract; monotonicity is claimed only for Trock >= Tinj "
+            "(complement recorded as finding F3 in DESIGN.md).", "DESIGN.md section 4 C05"),
+})
+
 NOT_APPLICABLE = {
     "C13": "independence/non-replication of Monte Carlo draws across forked pool workers is a schedule/process-history "
            "property of numpy's global RNG under fork; no per-call contract can state it (DESIGN.md section 6)",
